@@ -2,6 +2,7 @@ import datetime
 import os
 import pathlib
 import platform
+import re
 from xml.etree import ElementTree as ET
 
 from exactly_lib.common.exit_value import ExitValue
@@ -194,9 +195,16 @@ def _xml_for_error(result: Result) -> ET.Element:
 
 def _error_message_for(result: Result) -> str:
     if result.status != Status.EXECUTED:
-        return error_message_for_error_info(result.error_info)
+        message = error_message_for_error_info(result.error_info)
     else:
-        return error_message_for_full_result(result.execution_result)
+        message = error_message_for_full_result(result.execution_result)
+    return _NON_XML_CHARACTER.sub(_REPLACEMENT_CHARACTER, message)
+
+
+# Characters that a well-formed XML 1.0 document cannot contain
+# (error messages may include output from programs).
+_NON_XML_CHARACTER = re.compile('[^\t\n\r\x20-\ud7ff\ue000-\ufffd\U00010000-\U0010ffff]')
+_REPLACEMENT_CHARACTER = '\ufffd'
 
 
 def _error_type(result: Result) -> str:
